@@ -538,13 +538,9 @@ func (p *Transformer) transformFuncBody(m llvm.Module, ctx llvm.Context, info *F
 				b.CreateStore(ret, params[0])
 				rv = b.CreateRetVoid()
 			case AttrWidthType:
-				if p.optimize {
-					if load := ret.IsALoadInst(); !load.IsNil() {
-						iptr := b.CreateBitCast(ret.Operand(0), llvm.PointerType(nft.ReturnType(), 0), "")
-						rv = b.CreateRet(b.CreateLoad(nft.ReturnType(), iptr, ""))
-						break
-					}
-				}
+				// The returned value is not re-read from the source pointer of the load that
+				// produced it: that memory may be modified between the load and the ret
+				// (same reason as for AttrPointer above).
 				ptr := llvm.CreateAlloca(b, info.Return.Type)
 				b.CreateStore(ret, ptr)
 				iptr := b.CreateBitCast(ptr, llvm.PointerType(nft.ReturnType(), 0), "")
